@@ -75,6 +75,7 @@ fn run_child_on(exe: &Path, file: &Path) -> Option<i32> {
 pub fn triage_crash(prop: &str, tier: Tier, seed: u64, exe: &Path) -> i32 {
     let dir = verif_dir().join("work").join(prop);
     let mut culprit: Option<Value> = None;
+    let mut pending: Option<Value> = None;
     let mut recorded: Vec<std::path::PathBuf> = std::fs::read_dir(&dir)
         .map(|rd| rd.filter_map(|e| e.ok().map(|e| e.path())).filter(|p| p.file_name().and_then(|n| n.to_str()).is_some_and(|n| n.starts_with("current-"))).collect())
         .unwrap_or_default();
@@ -93,9 +94,31 @@ pub fn triage_crash(prop: &str, tier: Tier, seed: u64, exe: &Path) -> i32 {
                 break;
             }
             Some(1) => {
-                // deterministic violation that was about to be reported when another thread crashed
+                // a deterministic violation of this property that was about to be reported when another thread
+                // crashed (or whose damage made the process die later): remembered, reported if nothing crashes alone
+                if pending.is_none() {
+                    pending = Some(case.clone());
+                }
             }
             _ => {}
+        }
+    }
+    if culprit.is_none() {
+        if let Some(case) = pending {
+            // the child replayed this case without dying, so it is safe to run here for the details
+            crate::history::assert_layout();
+            crate::shadow::install();
+            crate::outcome::silence_panics();
+            let _ = crate::statics::pool();
+            if let Some(list) = replay_case(prop, &case) {
+                if let Some((step, clause, detail)) = list.iter().find(|(_, c, _)| c.starts_with(prop)) {
+                    let mut merged = Merged::new();
+                    merged.evaluations = 1;
+                    merged.violation = Some(Violation { case, clause: clause.clone(), step: *step, detail: detail.clone() });
+                    let v = finish(prop, tier, seed, "exploration", "crash triage: a recorded case violates the property deterministically", &[], &merged, 0.0, "lsv");
+                    return v.exit_code;
+                }
+            }
         }
     }
     let Some(mut case) = culprit else {
